@@ -2,7 +2,7 @@
   PV.Model.KexIO — line protocol over the key-exchange model (shared by Driver/C06 and Driver/C08).
 
   Request:
-    kex <engine> <role> <mode> <lv> <rv> <lk> <rk> <hostkey> <algo> <x> <verify> <modulus> <pkt>*
+    kex <engine> <role> <mode> <lv> <rv> <lk> <rk> <hostkey> <algo> <x> <verify> <modulus> <sid> <pkt>*
       engine  : grp:<P>:<G> | gex | gexold | nist | c25519       (numbers in decimal)
       role    : c | s
       mode    : gate (packets pass Transport.run's _expected_packet gate) | raw (parse_next directly)
@@ -10,8 +10,9 @@
       x       : randomness of start_kex (exponent / private scalar)
       verify  : toy | yes | no      (outcome of Transport._verify_key)
       modulus : none | <g>:<p>      (what the moduli pack returns)
+      sid     : none | <hex>        (transport.session_id before the exchange: none = first exchange)
       pkt     : <ptype>:<hex body>:<x>
-    Reply: `<effect> … | <ok|ssh|value|type> | <expected types, comma separated or ->`
+    Reply: `<effect> … | <ok|ssh|value|type> | <expected types, comma separated or -> | <session_id afterwards>`
   Request:  kh <sid hex|none> (<K>:<H hex>)*   → `_set_K_H` sequence: `<K|none> <H|none> <sid|none>`
 -/
 import PV.Model.Kex
@@ -95,20 +96,23 @@ def parseKH (s : String) : Option (Nat × Bytes) :=
 
 def step (line : String) : String :=
   match words line with
-  | "kex" :: en :: role :: mode :: lv :: rv :: lk :: rk :: hk :: algo :: x :: vf :: md :: pkts =>
+  | "kex" :: en :: role :: mode :: lv :: rv :: lk :: rk :: hk :: algo :: x :: vf :: md :: sid :: pkts =>
     match parseEngine en, ofHex? lv, ofHex? rv, ofHex? lk, ofHex? rk, ofHex? hk, ofHex? algo with
     | some (eng, old), some lv, some rv, some lk, some rk, some hk, some algo =>
       match x.toNat?, parseVerify algo vf, parseModulus md, pkts.mapM parsePkt with
       | some x, some verify, some modulus, some pkts =>
+        let sid0 : Option (Option Bytes) := if sid == "none" then some none else (ofHex? sid).map some
         if role != "c" && role != "s" then "bad-op"
         else if mode != "gate" && mode != "raw" then "bad-op"
+        else if sid0.isNone then "bad-op"
         else
           let c : Env := { serverMode := role == "s", localVersion := lv, remoteVersion := rv,
                            localKexInit := lk, remoteKexInit := rk, hostKey := hk, hash := toyHash,
                            sign := toySign algo hk, verify := verify, modulus := modulus }
           let s0 := beginSess c eng old x
           let s := if mode == "gate" then pkts.foldl (Sess.feed c eng) s0 else pkts.foldl (rawFeed c eng) s0
-          showSess s
+          let t : TSt := ({ sessionId := sid0.getD none } : TSt).apply s.trace
+          showSess s ++ " | " ++ showOptBytes t.sessionId
       | _, _, _, _ => "bad-op"
     | _, _, _, _, _, _, _ => "bad-op"
   | "kh" :: sid :: khs =>
